@@ -230,6 +230,55 @@ Theorem C01_src_set_children_keeps_WF : forall s (t : obj) (vs : list (option ob
   src_set_children (S (S (length (hp s)))) (hp s) t vs = Ok (h', u) -> WF (mkS h' (wroots s)).
 Proof. exact src_set_children_WF. Qed.
 
+(* ---- source-text tie, sixth tranche: the list facades (children.append / remove / insert / move / reorder,
+   predecessors / successors .append / .remove) translated from task.py on every run (gen/SrcGraph.v); an accepted call of
+   the translated source leaves a well-formed graph, and the translated source never raises anything but its own
+   RuntimeError (reorder excepted: StopIteration / ValueError for ids that are not there, exactly like the model). ---- *)
+From PJ Require Import Graph.SrcGraphEquiv6 Graph.SrcGraphEquiv7.
+
+Theorem C01_src_ch_append_keeps_WF : forall s o t h' u, WF s -> hid_tid (hp s) -> o < length (hp s) ->
+  (forall t', t = Some t' -> pub s t') ->
+  src_ch_append (S (S (length (hp s)))) (wroots s) (hp s) o t = Ok (h', u) -> WF (mkS h' (wroots s)).
+Proof. exact src_ch_append_WF. Qed.
+
+Theorem C01_src_ch_remove_keeps_WF : forall s o t h' b, WF s -> hid_tid (hp s) ->
+  src_ch_remove (S (S (length (hp s)))) (wroots s) (hp s) o t = Ok (h', b) -> WF (mkS h' (wroots s)).
+Proof. exact src_ch_remove_WF. Qed.
+
+Theorem C01_src_ch_insert_keeps_WF : forall s (o : obj) (i : Z) (t : option obj) h' u, WF s -> hid_tid (hp s) -> o < length (hp s) ->
+  (forall t', t = Some t' -> pub s t') ->
+  src_ch_insert (S (S (length (hp s)))) (wroots s) (hp s) o i t = Ok (h', u) -> WF (mkS h' (wroots s)).
+Proof. exact src_ch_insert_WF. Qed.
+
+Theorem C01_src_ch_move_keeps_WF : forall s o ts before after h' u, WF s ->
+  src_ch_move (hp s) o ts before after = Ok (h', u) -> WF (mkS h' (wroots s)).
+Proof. exact src_ch_move_WF. Qed.
+
+Theorem C01_src_ch_reorder_keeps_WF : forall s o ids h' u, WF s ->
+  src_ch_reorder (hp s) o ids = Ok (h', u) -> WF (mkS h' (wroots s)).
+Proof. exact src_ch_reorder_WF. Qed.
+
+Theorem C01_src_pred_append_keeps_WF : forall s t x h' u, WF s -> hid_tid (hp s) -> pub s t ->
+  (forall x', x = Some x' -> pub s x') ->
+  src_pred_append (S (S (length (hp s)))) (hp s) t x = Ok (h', u) -> WF (mkS h' (wroots s)).
+Proof. exact src_pred_append_WF. Qed.
+
+Theorem C01_src_succ_append_keeps_WF : forall s t x h' u, WF s -> hid_tid (hp s) -> pub s t ->
+  (forall x', x = Some x' -> pub s x') ->
+  src_succ_append (S (S (length (hp s)))) (hp s) t x = Ok (h', u) -> WF (mkS h' (wroots s)).
+Proof. exact src_succ_append_WF. Qed.
+
+Theorem C01_src_pred_remove_keeps_WF : forall s t x h' b, WF s -> hid_tid (hp s) ->
+  src_pred_remove (S (S (length (hp s)))) (hp s) t x = Ok (h', b) -> WF (mkS h' (wroots s)).
+Proof. exact src_pred_remove_WF. Qed.
+
+Theorem C01_src_succ_remove_keeps_WF : forall s t x h' b, WF s -> hid_tid (hp s) ->
+  src_succ_remove (S (S (length (hp s)))) (hp s) t x = Ok (h', b) -> WF (mkS h' (wroots s)).
+Proof. exact src_succ_remove_WF. Qed.
+
+Theorem C01_src_ch_move_no_crash : forall s o ts before after k, src_ch_move (hp s) o ts before after <> Crash k.
+Proof. exact src_ch_move_no_crash. Qed.
+
 Print Assumptions C01_step.
 Print Assumptions C01_step_shape.
 Print Assumptions C01_public_stays_public.
@@ -262,3 +311,13 @@ Print Assumptions C01_src_set_children.
 Print Assumptions C01_src_set_predecessors_keeps_WF.
 Print Assumptions C01_src_set_successors_keeps_WF.
 Print Assumptions C01_src_set_children_keeps_WF.
+Print Assumptions C01_src_ch_append_keeps_WF.
+Print Assumptions C01_src_ch_remove_keeps_WF.
+Print Assumptions C01_src_ch_insert_keeps_WF.
+Print Assumptions C01_src_ch_move_keeps_WF.
+Print Assumptions C01_src_ch_reorder_keeps_WF.
+Print Assumptions C01_src_pred_append_keeps_WF.
+Print Assumptions C01_src_succ_append_keeps_WF.
+Print Assumptions C01_src_pred_remove_keeps_WF.
+Print Assumptions C01_src_succ_remove_keeps_WF.
+Print Assumptions C01_src_ch_move_no_crash.
